@@ -46,7 +46,7 @@ class Gen:
         r = self.rng
         k = r.random()
         if k < 0.30:
-            return ["lit", r.choice(WORDS)], "general"
+            return ["lit", r.choice(WORDS)], "lit"
         if k < 0.40:
             return ["tok", r.choice(TOKS)], "token"
         if k < 0.55:
@@ -91,10 +91,14 @@ class Gen:
             return x
         if allow_str and r.random() < 0.3:
             return r.choice(WORDS)
-        for _ in range(10):
+        for _ in range(40):
             lf, kind = self.leaf()
             if want is None or kind in want:
                 return lf
+        if want and "class-" in want and "class+" not in want:
+            return ["named", "AnyButDigit"]
+        if want and ("class+" in want):
+            return ["named", "AnyDigit"]
         return ["lit", "a"]
 
     def kind_of(self, x):
@@ -178,7 +182,7 @@ class Gen:
         # class algebra
         neg = r.random() < 0.25
         want = ("class-",) if neg else ("class+", "token")
-        c = self.operand(want)
+        c = self.operand(("class-",) if neg else ("class+",))      # at least one operand is a class
         g = r.random()
         if g < 0.15:
             return ["op", "~", c], ("class+" if neg else "class-")
@@ -526,7 +530,11 @@ def shrink_candidates(plan):
                 continue
             for path, sub in _subterms(op["recipe"], ()):
                 if isinstance(sub, list) and sub and sub[0] != "ref" and path:
-                    for simple in (["lit", "a"], ["named", "AnyDigit"]):
+                    if op["recipe"][0] == "op" and op["recipe"][1] in ("|", "-", "~"):
+                        simples = (["named", "AnyDigit"],)          # stay inside the class algebra
+                    else:
+                        simples = (["lit", "a"], ["named", "AnyDigit"])
+                    for simple in simples:
                         if sub != simple:
                             q = copy.deepcopy(plan)
                             _set(q["tasks"][ti][oi]["recipe"], path, simple)
